@@ -217,6 +217,42 @@ static std::vector<Cfg> configs(bool thorough) {
                         }
                     }
                 }
+    // large family: the statement quantifies over payloads of 1..65515 bytes, so the sizes at the top of the range (total length
+    // 65535, 65534, the largest fragment offset, one past 32 KiB) are configurations too; cuts are every non-empty subset of
+    // {8, 32768, last 8-byte boundary}, with and without IP options (header 24: the maximum payload is 65511)
+    for (int opts = 0; opts < 2; ++opts) {
+        const int maxp = 65535 - (opts ? 24 : 20);
+        std::vector<int> sizes = {maxp, maxp - 1, maxp - 3, maxp & ~7, 32768 + 13, 65535 - 60};
+        if (!thorough) sizes.resize(opts ? 2 : 4);
+        for (int size : sizes)
+            for (int proto : {17, 0xFD}) {
+                if (!thorough && proto != 17 && size != maxp) continue;
+                const int lastb = (size - 1) & ~7;
+                const int cand[3] = {8, 32768, lastb};
+                for (unsigned m = 1; m < 8; ++m) {
+                    std::vector<int> cuts = {0};
+                    for (int i = 0; i < 3; ++i) if ((m >> i & 1) && cand[i] > cuts.back() && cand[i] < size) cuts.push_back(cand[i]);
+                    cuts.push_back(size);
+                    if (cuts.size() < 3) continue;
+                    for (int var = 0; var < 2; ++var) {
+                        if (!thorough && var && m != 7) continue;
+                        Cfg c; c.eth = (m == 5);
+                        Dgram d1{0x1234, A_, B_, (uint8_t)proto, opts != 0, upper_payload(proto, A_, B_, size, 1), cuts};
+                        c.d.push_back(d1);
+                        if (var) {
+                            Dgram d2 = d1; d2.id = 0x1235; d2.opts = false;
+                            d2.payload = upper_payload(d2.proto, d2.src, d2.dst, 19, 0x80);
+                            d2.cuts = {0, 8, 19};
+                            c.d.push_back(d2);
+                        }
+                        std::string cs; for (int u : cuts) cs += str(u) + ".";
+                        c.name = "large size=" + str(size) + " cuts(bytes)=" + cs + " proto=" + str(proto) + " opts=" + str(opts) +
+                                 " var=" + str(var) + " eth=" + str((int)c.eth);
+                        v.push_back(c);
+                    }
+                }
+            }
+    }
     return v;
 }
 
